@@ -2,6 +2,9 @@
 Data file operations and readers/writers for the Python Iceberg implementation
 """
 
+import decimal
+import math
+import numbers
 import os
 import tempfile
 from datetime import datetime
@@ -28,6 +31,9 @@ if TYPE_CHECKING:
     from .file_manager import FileManager
 
 logger = get_logger(__name__)
+
+# Largest finite IEEE-754 binary32 value
+_FLOAT32_MAX = 3.4028234663852886e38
 
 # Exceptions PyArrow raises when data genuinely does not fit a schema. Anything
 # else is a bug in our conversion code and must not be reported as "incompatible".
@@ -536,13 +542,39 @@ class DataFileManager:
             str(f["name"]) for f in iceberg_schema.fields if _type_name(f) == "date"
         }
 
+        float32_fields = {
+            str(f["name"]) for f in iceberg_schema.fields if _type_name(f) == "float"
+        }
+
+        def _non_integral(value: Any) -> bool:
+            # float, Decimal, Fraction, numpy scalars...: anything numeric that is
+            # not a whole number (pyarrow would silently drop the fraction)
+            if isinstance(value, (bool, int)) or not isinstance(value, numbers.Real):
+                if not isinstance(value, decimal.Decimal):
+                    return False
+            try:
+                return value != int(value)
+            except (ValueError, OverflowError, TypeError):
+                return False  # NaN / inf: left to pyarrow, which rejects them
+
         for i, record in enumerate(records):
             for name in integer_fields:
                 value = record.get(name)
-                if isinstance(value, float) and not value.is_integer():
+                if _non_integral(value):
                     raise ValueError(
                         f"Record {i}: field '{name}' is an integer column but got the "
                         f"non-integral value {value!r}; refusing to truncate it"
+                    )
+            for name in float32_fields:
+                value = record.get(name)
+                if (
+                    isinstance(value, float)
+                    and math.isfinite(value)
+                    and abs(value) > _FLOAT32_MAX
+                ):
+                    raise ValueError(
+                        f"Record {i}: field '{name}' is a 32-bit float column and cannot "
+                        f"represent {value!r} (it would be stored as infinity)"
                     )
             for name in date_fields:
                 if isinstance(record.get(name), datetime):
